@@ -4,3 +4,6 @@ CONSTANT PeerHandleBase = 0
 CONSTANT Side = "listener"
 INVARIANT Emit
 CHECK_DEADLOCK FALSE
+CONSTANT C1 = 3
+CONSTANT C2 = 4
+CONSTANT Focus = "all"
